@@ -1361,7 +1361,7 @@ class Program:
         while depth > 0:
             depth -= 1
             calls = [b for b in f.blocks if b["term"]["k"] == "call" and not b.get("cleanup")]
-            if len(calls) != 1 or f.terms.ret is None:
+            if not (1 <= len(calls) <= 3) or f.terms.ret is None or f.cfg.loop_headers:
                 return f
             r = f.terms.ret
             while isinstance(r, tuple) and r and r[0] in ("ref", "deref"):
@@ -1376,7 +1376,13 @@ class Program:
                 while isinstance(a, tuple) and a and a[0] == "cast":
                     a = strip_refs(a[2])
                 return isinstance(a, tuple) and a and (a[0] in ("const", "constitem") or (a[0] == "agg" and not a[4]))
-            if not all(constlike(a) for a in args[f.argc:]):
+            def of_params(a):
+                """computed from the entry's own parameters and constants only (`&sexpr.variable_mapping()`)"""
+                for x in [a] + subterms(a):
+                    if isinstance(x, tuple) and x and x[0] in ("mu", "phi", "gamma", "local", "mutref", "mut", "top"):
+                        return False
+                return True
+            if not all(constlike(a) or of_params(a) for a in args[f.argc:]):
                 return f
             gs = [g for g in self.resolve(r[1]) if "{closure" not in g.npath]
             if len(gs) != 1 or gs[0].impl_self != f.impl_self or not gs[0].name.startswith(f.name) or gs[0] is f:
